@@ -355,6 +355,12 @@ def rule_segment_positive(ctx: Ctx, clause: str = "C03.15") -> RuleResult:
     return rr
 
 
+def _c01():
+    from . import c01
+
+    return c01
+
+
 def _as(rr, clause):
     rr.clause = clause
     return rr
@@ -386,6 +392,8 @@ def run(ctx: Ctx):
         _as(c11.rule_dbe_ranges(ctx, "C03.16"), "C03.16"),
         _as(c11.rule_str_widths_per_character(ctx), "C03.17"),
         _as(c11.rule_one_decoder(ctx), "C03.18"),
+        _as(c11.rule_memo_globals(ctx), "C03.19"),
+        _as(_c01().rule_pad_segment_nonzero(ctx), "C03.20"),
         loopfresh.run_loopfresh(p, "C03.12", "C03", floor=6),
         offstep.run_offstep(p, "C03.10", [f.qualname for f in p.modules[TL].functions], floor=5),
     ]
